@@ -5,6 +5,7 @@ package layout
 import (
 	"fmt"
 	"go/ast"
+	"go/constant"
 	"go/token"
 	"go/types"
 	"strings"
@@ -178,6 +179,18 @@ func Extract(pkg *packages.Package, fd *ast.FuncDecl) []Ev {
 		case *ast.ParenExpr:
 			return "(" + deepStr(x.X, d+1) + ")"
 		case *ast.CallExpr:
+			// a conversion between integer types of the same width (uint16(chainID) with ChainID
+			// defined as uint16) writes the same bytes as its operand
+			if tv, ok := info.Types[x.Fun]; ok && tv.IsType() && len(x.Args) == 1 {
+				from, to := info.TypeOf(x.Args[0]), info.TypeOf(x)
+				if from != nil && to != nil && SizeOf(from) > 0 && SizeOf(from) == SizeOf(to) {
+					fb, ok1 := from.Underlying().(*types.Basic)
+					tb, ok2 := to.Underlying().(*types.Basic)
+					if ok1 && ok2 && fb.Info()&types.IsInteger != 0 && tb.Info()&types.IsInteger != 0 {
+						return deepStr(x.Args[0], d+1)
+					}
+				}
+			}
 			var as []string
 			for _, a := range x.Args {
 				as = append(as, deepStr(a, d+1))
@@ -274,6 +287,56 @@ func Extract(pkg *packages.Package, fd *ast.FuncDecl) []Ev {
 		order string
 	}
 	stagedIn := map[types.Object]staged{}
+	// pieces written into a local fixed-size array at constant offsets (PutUintN into arr[lo:hi],
+	// arr[k] = x, copy(arr[lo:hi], src[:])) before the array is written out as a whole
+	type piece struct {
+		off, width int
+		val        ast.Expr
+		order      string
+	}
+	pieces := map[types.Object][]piece{}
+	constOf := func(e ast.Expr) (int, bool) {
+		if e == nil {
+			return 0, true
+		}
+		if tv, ok := info.Types[e]; ok && tv.Value != nil {
+			if k, exact := constantInt(tv.Value); exact {
+				return k, true
+			}
+		}
+		return 0, false
+	}
+	arrayIdent := func(e ast.Expr) types.Object {
+		id, ok := e.(*ast.Ident)
+		if !ok {
+			return nil
+		}
+		obj := info.Uses[id]
+		if obj == nil {
+			return nil
+		}
+		if _, isArr := obj.Type().Underlying().(*types.Array); !isArr {
+			return nil
+		}
+		return obj
+	}
+	// single-byte stores arr[k] = x
+	ast.Inspect(fd.Body, func(n ast.Node) bool {
+		as, ok := n.(*ast.AssignStmt)
+		if !ok || as.Tok != token.ASSIGN || len(as.Lhs) != 1 || len(as.Rhs) != 1 {
+			return true
+		}
+		ix, ok := as.Lhs[0].(*ast.IndexExpr)
+		if !ok {
+			return true
+		}
+		if obj := arrayIdent(ix.X); obj != nil {
+			if k, isK := constOf(ix.Index); isK {
+				pieces[obj] = append(pieces[obj], piece{k, 1, as.Rhs[0], ""})
+			}
+		}
+		return true
+	})
 	ast.Inspect(fd.Body, func(n ast.Node) bool {
 		if n == nil {
 			stack = stack[:len(stack)-1]
@@ -293,6 +356,19 @@ func Extract(pkg *packages.Package, fd *ast.FuncDecl) []Ev {
 		ev := Ev{Callee: full, Pos: call.Pos()}
 		var expand []fieldSrc
 		if strings.HasPrefix(full, "(encoding/binary.") && strings.Contains(full, ").PutUint") && len(call.Args) == 2 {
+			if sl, ok := call.Args[0].(*ast.SliceExpr); ok && (sl.Low != nil || sl.High != nil) {
+				if obj := arrayIdent(sl.X); obj != nil {
+					if lo, isK := constOf(sl.Low); isK {
+						w := map[string]int{"PutUint16": 2, "PutUint32": 4, "PutUint64": 8}[full[strings.LastIndex(full, ".")+1:]]
+						order := ""
+						if se, ok := call.Fun.(*ast.SelectorExpr); ok {
+							order = exprStr(se.X)
+						}
+						pieces[obj] = append(pieces[obj], piece{lo, w, call.Args[1], order})
+					}
+				}
+				return true
+			}
 			if sl, ok := call.Args[0].(*ast.SliceExpr); ok && sl.Low == nil && sl.High == nil {
 				if id, ok := sl.X.(*ast.Ident); ok {
 					if obj := info.Uses[id]; obj != nil {
@@ -325,6 +401,35 @@ func Extract(pkg *packages.Package, fd *ast.FuncDecl) []Ev {
 				if s := SizeOf(info.TypeOf(sl.X)); s > 0 {
 					if _, isArr := info.TypeOf(sl.X).Underlying().(*types.Array); isArr {
 						ev.Width, ev.Field = s, exprStr(sl.X)
+						if obj := arrayIdent(sl.X); obj != nil && len(pieces[obj]) > 0 {
+							// the pieces must tile the array exactly
+							ps := append([]piece{}, pieces[obj]...)
+							for i := 1; i < len(ps); i++ {
+								for j := i; j > 0 && ps[j-1].off > ps[j].off; j-- {
+									ps[j], ps[j-1] = ps[j-1], ps[j]
+								}
+							}
+							next, tiled := 0, true
+							for _, pc := range ps {
+								if pc.off != next {
+									tiled = false
+								}
+								next += pc.width
+							}
+							if tiled && next == s {
+								for _, pc := range ps {
+									f := fieldSrc{src: deepStr(pc.val, 0), width: pc.width}
+									if tv, ok := info.Types[pc.val]; ok && tv.Value != nil {
+										f.cval = tv.Value.ExactString()
+									}
+									expand = append(expand, f)
+									if pc.width > 1 {
+										ev.Order = pc.order
+									}
+								}
+								break
+							}
+						}
 						if id, ok := sl.X.(*ast.Ident); ok {
 							if st, ok := stagedIn[info.Uses[id]]; ok && SizeOf(info.TypeOf(st.val)) == s {
 								ev.Field, ev.Order = exprStr(resolve(st.val)), st.order
@@ -380,7 +485,9 @@ func Extract(pkg *packages.Package, fd *ast.FuncDecl) []Ev {
 			ev.BufSize = bufSize(info, fd, arg)
 		case full == "io.ReadAll":
 			ev.Kind, ev.Width, ev.Field, ev.BufSize = "read", -1, lhsOf(stack, call, 0), "remaining"
-		case full == "(*bytes.Reader).Len" || full == "(*bytes.Buffer).Bytes" || full == "bytes.NewReader" || full == "bytes.NewBuffer":
+		case full == "(*bytes.Reader).Len" || full == "(*bytes.Buffer).Bytes" || full == "bytes.NewReader" || full == "bytes.NewBuffer" ||
+			full == "(*bytes.Buffer).Grow" || full == "(*bytes.Buffer).Len" || full == "(*bytes.Buffer).Cap":
+			// (Grow only reserves capacity)
 			return true
 		default:
 			// other methods of bytes.Reader/Buffer move the cursor in ways the table does not model
@@ -589,4 +696,9 @@ func BinarySize(t types.Type) int {
 		return -1
 	}
 	return SizeOf(t)
+}
+
+func constantInt(v constant.Value) (int, bool) {
+	k, exact := constant.Int64Val(constant.ToInt(v))
+	return int(k), exact
 }
